@@ -347,6 +347,9 @@ var checks = map[string]*check{
 		},
 		Parts: []part{
 			{Name: "intruders", Kind: "enum", Bin: "e3.test", Test: "TestC12"},
+			// the same cells built with the toolchain the repository's go.mod selects (standard-library behaviour, e.g. TLS session
+			// resumption, differs between toolchains)
+			{Name: "intruders-repo-toolchain", Kind: "enum", Bin: "old/e3.test", Test: "TestC12", Env: []string{"VERIF_OLD_TOOLCHAIN=1"}},
 			{Name: "impostor", Kind: "explore", Scen: "impostor", Depths: depths([]int{1}, []int{1, 2}), Budget: budget(3*time.Minute, 15*time.Minute)},
 			// brokered listeners in both directions, with and without multiplexing (with multiplexing they have no socket an
 			// outside intruder could reach: the second peer knocks and opens a stream the way the broker itself does)
